@@ -110,3 +110,12 @@ Definition v_file_long (mem file : list triple) (rts : list (list int)) (count :
 
 (* a sequence of calls in one process: the verdicts of its steps combined bit by bit *)
 Definition vseq (l : list Z) : Z := verdict (forallb Z.even l) (forallb (fun v => v <? 2) l).
+
+(* very long pair files (several blocks of 64 KiB .. 16 MiB): the complete comparison of the rows read
+   back with the rows of the in-memory call is decided in the harness on exact values; Coq judges the
+   first and last rows and the rows around every block boundary (lists at the same positions), the
+   number of rows of the in-memory call against the count returned by the file call *)
+Definition v_file_sampled (mem file : list triple) (rts : list (list int)) (nrows count : Z) : Z :=
+  verdict (list_eqb triple_eqb (read_pairs (write_rows mem (zls rts))) file
+           && (nrows =? count) && (length rts =? length mem)%nat)
+          (same_pairs_b file mem && (count =? nrows)).
